@@ -196,6 +196,7 @@ def caseLine (t : Tables) (st : CaseState) (ws : List String) : CaseState :=
         | "identity", r => (some .identity, r)
         | "dropnext", r => (some .dropNext, r)
         | "fail", r => (some .fail, r)
+        | "swallow", r => (some .swallow, r)
         | "prepend", tok :: r => ((unhexArg tok).map .prepend, r)
         | _, r => (none, r)
       match h, rest with
